@@ -561,3 +561,13 @@ func GoType(kind string) reflect.Type {
 	}
 	panic("GoType " + kind)
 }
+
+// SortedPairs renders a multimap (url.Values, http.Header) deterministically.
+func SortedPairs(m map[string][]string) string {
+	ks := SortedKeys(m)
+	var sb strings.Builder
+	for _, k := range ks {
+		fmt.Fprintf(&sb, "%q:%q ", k, m[k])
+	}
+	return sb.String()
+}
